@@ -815,6 +815,15 @@ Theorem C15_length_contract_channel : forall enc_block md5 p o rate bps ch total
     match total with Some t => t = written | None => True end.
 Proof. exact channel_length_contract. Qed.
 
+(* C08: bytes that do not complete a PCM frame (also ending inside a sample) change nothing in the file a FlacByteWriter finishes *)
+Theorem C08_partial_dropped_byte : forall enc_block md5 p en o rate bps ch total w (x partial : list N) k,
+  options_wf o -> 1 <= bps -> 1 <= ch ->
+  byte_new p en [] o rate bps ch total = Ok w -> Forall byte_ok x -> Forall byte_ok partial ->
+  let nb := N.to_nat (bytes_per_sample_of bps) in
+  length x = (nb * (N.to_nat ch * k))%nat -> (length partial < nb * N.to_nat ch)%nat ->
+  byte_run enc_block md5 p w [x ++ partial] = byte_run enc_block md5 p w [x].
+Proof. exact byte_partial_dropped. Qed.
+
 Print Assumptions C07_decoded_file_is_read_bytes_channels.
 Print Assumptions C03_valid_file_is_read.
 Print Assumptions C07_decoded_file_is_read.
@@ -884,3 +893,4 @@ Print Assumptions C08_no_panic_byte_debug.
 Print Assumptions C08_no_panic_channel_debug.
 Print Assumptions C15_length_contract_byte.
 Print Assumptions C15_length_contract_channel.
+Print Assumptions C08_partial_dropped_byte.
